@@ -15,6 +15,9 @@ VARIABLES l, run, ins, del, done, viol
 tvars == <<l, run, ins, del, done, viol>>
 TraceInit == l = 1 /\ run = 0 /\ ins = 0 /\ del = 0 /\ done = 0 /\ viol = {}
 
+\* "awaitq": a reliable reader matched to the writer has not acknowledged every sample written before the wait
+OwedAt(e) == IF "owed" \in DOMAIN e THEN e.owed ELSE FALSE
+
 EndViol(e) ==
      (IF e.hung THEN {"C13_thread_did_not_reach_a_yield_point"} ELSE {})
   \cup (IF e.scenario \in {"stream", "mio6", "mio8"} /\ e.del < e.ins
@@ -24,7 +27,11 @@ EndViol(e) ==
   \cup (IF e.scenario \in {"nkstream", "nkbare"} /\ e.del < e.vals
           THEN {"C13_consumer_parked_while_sample_available_" \o e.scenario} ELSE {})
   \cup (IF e.scenario = "awrite" /\ e.done < e.target THEN {"C13_async_write_parked_although_queue_has_room"} ELSE {})
-  \cup (IF e.scenario = "await" /\ e.done < e.target THEN {"C13_async_wait_for_acknowledgments_never_completes"} ELSE {})
+  \cup (IF e.scenario \in {"await", "awaitq"} /\ e.done < e.target THEN {"C13_async_wait_for_acknowledgments_never_completes"} ELSE {})
+  \* C20, asynchronous form: at the end the writer is idle and every matched reliable reader has acknowledged everything
+  \* (or there is none): the wait has to have completed with success
+  \cup (IF e.scenario = "awaitq" /\ e.done < e.target /\ ~OwedAt(e)
+          THEN {"C20_async_wait_still_pending_although_everything_acknowledged"} ELSE {})
 
 Step ==
   /\ l <= Len(Rec)
@@ -36,6 +43,9 @@ Step ==
             \* counters only grow, nothing is delivered that was not inserted
             /\ viol' = viol \cup (IF e.ins < ins \/ e.del < del \/ e.done < done \/ e.del > e.ins
                                     THEN {"C13_inconsistent_counters"} ELSE {})
+                             \* C20, asynchronous form: success is reported only when nothing is owed any more
+                             \cup (IF e.done > done /\ OwedAt(e)
+                                    THEN {"C20_async_wait_reports_success_without_acknowledgment"} ELSE {})
             /\ UNCHANGED run
        [] e.ev \in {"Skip", "Hung"} -> UNCHANGED <<run, ins, del, done, viol>>
        [] e.ev = "End" -> viol' = viol \cup EndViol(e) /\ UNCHANGED <<run, ins, del, done>>
